@@ -64,11 +64,19 @@ Definition Registered (st : state) (i : nat) (o : obj) : Prop :=
   nlookup (o_name o) (cs_names (cget st (o_cls o))) = Some i /\
   klookup (o_key o) (cs_canon (cget st (o_cls o))) = Some i.
 
+(* coherence of the fields of one object: a domain's canonical form is (name, length)
+   and it is its only key *)
+Definition ObjOK (o : obj) : Prop :=
+  match o_data o with
+  | DDom l => o_key o = KDom (o_name o) l /\ o_keys o = [o_key o]
+  | _ => True
+  end.
+
 Record RegOK (ct : ctable) (st : state) : Prop := mkRegOK {
   ok_len : length (classes st) = length ct;
   ok_cls : forall c, c < length ct -> ClassOK (heap st) c (cget st c);
   ok_obj : forall i o, live_obj (heap st) i o ->
-           o_cls o < length ct /\ Registered st i o /\ In (o_key o) (o_keys o)
+           o_cls o < length ct /\ Registered st i o /\ (In (o_key o) (o_keys o) /\ ObjOK o)
 }.
 
 Record HeapOK (st : state) : Prop := mkHeapOK {
@@ -165,7 +173,7 @@ Theorem inv_collect_gen ct st :
   length (classes st) = length ct ->
   (forall c, c < length ct -> ClassOK (heap st) c (cget st c)) ->
   (forall i o, live_obj (heap st) i o -> kept (heap st) (root_ids (roots st)) i = true ->
-      o_cls o < length ct /\ Registered st i o /\ In (o_key o) (o_keys o)) ->
+      o_cls o < length ct /\ Registered st i o /\ (In (o_key o) (o_keys o) /\ ObjOK o)) ->
   HeapOK st -> Inv ct (collect st).
 Proof.
   intros RL RC RO H. set (need := root_ids (roots st)). set (h' := sweep (heap st) need).
@@ -381,10 +389,11 @@ Qed.
 Theorem inv_alloc_register ct st c name k extra children d :
   Inv ct st -> c < length ct -> Fresh st c name k extra ->
   (forall x, In x children -> is_live (heap st) x = true) ->
+  ObjOK (mkObj c name k (k :: extra) true children d) ->
   Inv ct (register (fst (alloc st (mkObj c name k (k :: extra) true children d))) c name k extra (length (heap st))).
 Proof.
-  intros [R H] Hc [F1 [F2 F3]] Hch.
-  set (o := mkObj c name k (k :: extra) true children d).
+  intros [R H] Hc [F1 [F2 F3]] Hch HO.
+  set (o := mkObj c name k (k :: extra) true children d) in *.
   set (id := length (heap st)).
   pose proof (ok_len _ _ R) as RL.
   pose proof (ok_cls _ _ R c Hc) as K.
@@ -423,7 +432,7 @@ Proof.
       * rewrite G2 by exact D. apply classok_cons. apply (ok_cls _ _ R c' Hc').
     + intros i x Hx. cbn [heap cput] in Hx. apply live_obj_cons_inv in Hx.
       destruct Hx as [[-> ->]|[Hi Hx]].
-      * split; [exact Hc|]. split; [|left; reflexivity]. unfold Registered. cbn [o_cls o_name o_key o].
+      * split; [exact Hc|]. split; [|split; [left; reflexivity | exact HO]]. unfold Registered. cbn [o_cls o_name o_key o].
         rewrite G1. cbn [cs_names cs_canon cs']. split.
         -- apply (alookup_aset_same str_eqb str_eqb_iff).
         -- apply (alookup_aset_same key_eqb key_eqb_iff).
@@ -494,9 +503,16 @@ Qed.
 
 Theorem inv_hset_data ct st i o d :
   Inv ct st -> hget (heap st) i = Some o ->
+  (match o_data o, d with DDom _, _ | _, DDom _ => False | _, _ => True end) ->
   Inv ct (mkState (hset (heap st) i (with_data o d)) (classes st) (roots st)).
 Proof.
-  intros [R H] Hg.
+  intros [R H] Hg Hd0.
+  assert (GO : forall j x x', hget (hset (heap st) i (with_data o d)) j = Some x ->
+               hget (heap st) j = Some x' -> ObjOK x' -> ObjOK x).
+  { intros j x x' Hx Hx' HO. rewrite hget_hset in Hx. destruct (Nat.eqb j i) eqn:E.
+    - apply Nat.eqb_eq in E. subst j. rewrite Hg in Hx, Hx'. cbn in Hx. injection Hx as <-. injection Hx' as <-.
+      unfold ObjOK in *. cbn. destruct (o_data o), d; tauto.
+    - congruence. }
   assert (G : forall j x, hget (hset (heap st) i (with_data o d)) j = Some x ->
               exists x', hget (heap st) j = Some x' /\ o_cls x = o_cls x' /\ o_name x = o_name x' /\
                          o_key x = o_key x' /\ o_keys x = o_keys x' /\ o_live x = o_live x' /\
@@ -532,7 +548,7 @@ Proof.
         exists x. split; [split; [exact Ha | congruence] | split; [congruence | rewrite He; exact Hx4]].
     + intros j x [Hx1 Hx2]. destruct (G j x Hx1) as [x' [Ha [Hb [Hc' [Hd [He [Hf Hg']]]]]]].
       destruct (ok_obj _ _ R j x') as [H1 [[H2 H3] H4]]; [split; [exact Ha | congruence]|].
-      split; [congruence|]. split; [|rewrite Hd, He; exact H4].
+      split; [congruence|]. split; [|rewrite Hd, He; split; [apply H4 | apply (GO j x x' Hx1 Ha); apply H4]].
       unfold Registered. rewrite Hb, Hc', Hd.
       change (cget (mkState (hset (heap st) i (with_data o d)) (classes st) (roots st)) (o_cls x')) with (cget st (o_cls x')).
       split; assumption.
